@@ -920,6 +920,9 @@ func TestC26(t *testing.T) {
 	}
 	close(jobs)
 	wg.Wait()
+	for i := 0; i < r.N(2, 30); i++ {
+		c26Strace(r, i, r.SubRand("strace", i).Uint64())
+	}
 	r.Extra("crash_images", totalImages)
 	r.Extra("violation_matrix", c26Tallies)
 	r.Extra("violation_examples", c26Examples)
